@@ -180,7 +180,7 @@ theorem OwnInvA.removeDown (id : Id) : Pres (OwnInvA a) (modS fun s => { s with 
     · exact hj m (hp.mem_iff.1 (List.mem_cons_of_mem _ hm)) hma)
 
 theorem OwnInvA.base : Base E (OwnInvA a) (okOwn a) where
-  okDown0 := fun _ => Or.inr rfl
+  ownDown := fun _ _ => Or.inr rfl
   membersApply := OwnInvA.membersApply a
   membersApplyExistingIf := OwnInvA.membersApplyExistingIf a
   membersNext := OwnInvA.membersNext a
@@ -200,7 +200,7 @@ theorem OwnInvA.base : Base E (OwnInvA a) (okOwn a) where
   modCtl := fun f h => Pres.modS_of (fun s hs =>
     OwnInvA.of_same a (h s).2.2.2.2.2.1 (h s).1 (h s).2.2.2.2.2.2.2.2 hs)
   setHst := fun _ => Pres.modS_of (fun s hs => OwnInvA.of_same a (s := s) rfl rfl (Or.inl rfl) hs)
-  addCustom := fun _ _ _ => Pres.modS_of (fun s hs => OwnInvA.of_same a (s := s) rfl rfl (Or.inl rfl) hs)
+  addCustom := fun _ _ _ _ => Pres.modS_of (fun s hs => OwnInvA.of_same a (s := s) rfl rfl (Or.inl rfl) hs)
 
 theorem renew_addr {p : Policy} {i j : Id} (h : renew p i = some j) : j.addr = i.addr := by
   cases p <;> simp [renew] at h <;> subst h <;> rfl
@@ -222,7 +222,7 @@ theorem OwnInvA.changeIdentity_same (newId : Id) (pol : Policy) (hadr : newId.ad
     · obtain ⟨_, hj, hk⟩ := hs
       exact ⟨hadr, hj, hk⟩
     · split
-      · exact Pres.bind (B.addUpdate _ (B.okDown0 _)) (fun _ => B.gossip)
+      · exact Pres.bind (B.addUpdate _ (Or.inr rfl)) (fun _ => B.gossip)
       · exact B.gossip
 
 theorem OwnInvA.attemptRejoin : Pres (OwnInvA a) (Foca.attemptRejoin E) := by
@@ -252,6 +252,7 @@ theorem OwnInvA.handleSelfUpdate (inc : Nat) (st : St) : Pres (OwnInvA a) (Foca.
 theorem OwnInvA.full : Full E (OwnInvA a) (okOwn a) (fun _ => True) (fun _ => True) where
   toBase := OwnInvA.base E a
   handleSelfUpdate := OwnInvA.handleSelfUpdate E a
+  inputDown := fun _ _ => Or.inr rfl
   senderOk := fun s0 h _ hp hsrc => by
     left
     simp only [Bool.or_eq_false_iff, beq_eq_false_iff_ne] at hsrc
@@ -330,7 +331,7 @@ theorem changeIdentity_other (E : Env) (s0 : State) (i : Id) (p : Policy)
         simp [Probe.clear] at hm
       · refine Tr.weaken (Tr.of_pres ?_) (fun _ h => Or.inl h)
         split
-        · exact Pres.bind (B.addUpdate _ (B.okDown0 _)) (fun _ => B.gossip)
+        · exact Pres.bind (B.addUpdate _ (Or.inr rfl)) (fun _ => B.gossip)
         · exact B.gossip
 
 theorem OwnInvA.reuseDownIdentity (a : Nat) : Pres (OwnInvA a) Foca.reuseDownIdentity := by
